@@ -27,7 +27,8 @@ def run(ctx, rep):
     prog = ctx.prog
     for r, tx in (("C12.a", "typed blob identity in the shared indexer"), ("C12.b", "copy_fast only within one repository"), ("C12.c", "durable-before-visible ordering"),
                   ("C12.d", "copy selects with the typed destination index"), ("C12.e", "merge picks the maximum and merges all subtrees"),
-                  ("C12.f", "repair keeps exactly the blobs still indexed"), ("C12.g", "rewrite removes only ignored paths")):
+                  ("C12.f", "repair keeps exactly the blobs still indexed"), ("C12.g", "rewrite removes only ignored paths"),
+                  ("C12.h", "processed-tree caches are keyed by everything the processing depends on")):
         rep.rule(r, tx)
     from rules import typedid, C03, C04
     from rules.C10 import borrow
@@ -70,6 +71,16 @@ def run(ctx, rep):
             getter = "get_tree" if any(c.endswith("get_tree") for c in _closure_calls(prog, CP, bl)) else ("get_data" if any(c.endswith("get_data") for c in _closure_calls(prog, CP, bl)) else None)
             want = {"Tree": "get_tree", "Data": "get_data"}.get(ty)
             rep.check("C12.d", f"copier/{ty}", ty in ("Tree", "Data") and getter == want, where=where(CP, bb), what=f"the {ty} copier receives blobs looked up with {getter}")
+    # the walk starts from every snapshot tree - not only from those missing in the destination: a root tree that is
+    # present does not imply that everything below it is
+    ts = [(bb, t) for bb, t in CP.calls() if "callee" in t and callee(t).endswith("TreeStreamerOnce::<P>::new") or ("callee" in t and re.search(r"TreeStreamerOnce(::<.*>)?::new$", callee(t)))]
+    okr = False
+    if len(ts) == 1:
+        sl = flow.backward_slice(CP, op_place(ts[0][1]["args"][2])) if op_place(ts[0][1]["args"][2]) else {"calls": set(), "args": set()}
+        filt = [c for c in sl["calls"] if re.search(r"::filter$|::filter_map$|has_tree$|::retain$|::difference$", c)]
+        okr = 3 in sl["args"] and not filt
+    rep.check("C12.d", "walk-from-all-snapshot-trees", okr, where=CP.loc(), what="the blob-collecting tree walk starts from the root tree of every snapshot to copy (unfiltered)" if okr else
+              "the tree walk that collects the blobs to copy does not start from every snapshot's root tree (roots are filtered): blobs below an already-present root are never examined")
     # tree walk errors abort
     nx = [bb for bb, t in CP.calls() if "callee" in t and re.search(r"TreeStreamerOnce as std::iter::Iterator>::next$", callee(t))]
     tb = [bb for bb, t in CP.calls() if "callee" in t and flow.TRY_BRANCH.search(callee(t))]
@@ -95,6 +106,25 @@ def run(ctx, rep):
         cl = [c for c in prog.closures_of(MN, recursive=False) if any("callee" in t and callee(t).endswith("Node::is_dir") for _, t in c.calls())]
         oka = 3 in sl["args"] and bool(cl) and any(c.endswith("Iterator::filter") or c.endswith("::filter") for c in sl["calls"]) and not any(re.search(r"::(take|skip|step_by|take_while)$", c) for c in sl["calls"])
     rep.check("C12.e", "all-subtrees-merged", oka, where=MN.loc(), what="the subtrees of ALL same-named directory nodes are merged (filter(is_dir) over every node, no truncation)")
+    # the merged node gets a subtree iff the WINNING node is a directory (entry types are preserved)
+    sub = [(bi, s_) for bi, blk in enumerate(MN.blocks) for s_ in blk["s"] if s_[0] == "=" and place_has_field(s_[1], "subtree")]
+    oksub = bool(sub)
+    for bi, s_ in sub:
+        base = s_[1][0]
+        dep = False
+        for (sw, succ) in C.transitive_control_deps(MN, bi):
+            e = flow.expr_of(MN, MN.term(sw)["discr"])
+            neg = False
+            while e[0] == "un" and e[1] == "Not":
+                neg = not neg
+                e = e[2]
+            if e[0] == "call" and e[1].endswith("Node::is_dir") and len(e) > 3 and op_place(MN.term(e[3])["args"][0]) and flow.base_local(MN, op_place(MN.term(e[3])["args"][0])) == base:
+                v = [vv for vv, x in MN.term(sw)["targets"] if x == succ]
+                took_true = (not v or v[0] != "0") != neg
+                dep = dep or took_true
+        oksub = oksub and dep
+    rep.check("C12.e", "subtree-only-for-dir-winner", oksub, where=MN.loc(), what="merge_nodes attaches a merged subtree only if the chosen node itself is a directory" if oksub else
+              "merge_nodes attaches a subtree to the chosen node without testing that THIS node is a directory: a file that wins over same-named directories gets a subtree")
     # ---- C12.f -------------------------------------------------------------------------------------
     PN = prog.find1(r"^<rustic_core::commands::repair::snapshots::RepairState<'_, I> as rustic_core::blob::tree::modify::Visitor>::process_node$")
     fam = [PN] + prog.closures_of(PN)
@@ -143,6 +173,57 @@ def run(ctx, rep):
                 dep = bool(v) and v[0] == ign
         okg = okg and dep
     rep.check("C12.g", "removed-only-if-ignored", okg, where=RW.loc(), what="a node is dropped from a rewritten tree only if the exclusion matcher returns Match::Ignore")
+    memo_rule(prog, rep)
+
+
+def memo_rule(prog, rep):
+    """C12.h: a tree visitor that short-cuts already processed trees (pre_process answering from a cache) must key that
+    cache by everything the processing depends on: if the visitor's per-node processing reads the path (rewrite matches
+    exclude globs against the full path), every cache lookup in pre_process must have the path in its key."""
+    VIS = "rustic_core::blob::tree::modify::Visitor>::"
+    impls = {}
+    for b in prog.by_crate["rustic_core"]:
+        m = re.match(r"^<(.+) as rustic_core::blob::tree::modify::Visitor>::(\w+)$", b.path)
+        if m:
+            impls.setdefault(m.group(1), {})[m.group(2)] = b
+    rep.floor("C12.h", "Visitor implementations", len(impls), 2)
+    LOOK = re.compile(r"(BTreeMap|HashMap|BTreeSet|HashSet)::<.*>::(get|contains|contains_key|get_mut|entry)$")
+    for ty, ms in sorted(impls.items()):
+        pre = ms.get("pre_process")
+        if pre is None:
+            continue
+        # does the processing depend on the path?  (any use of the path parameter in process_node / pre_process_tree /
+        # post_process_tree beyond passing it back into the cache)
+        dep = []
+        for name in ("process_node", "post_process_tree"):
+            b = ms.get(name)
+            if b is None:
+                continue
+            for fam in [b] + prog.closures_of(b):
+                for bb, t in fam.calls():
+                    if "callee" not in t or LOOK.search(callee(t)):
+                        continue
+                    for a in t["args"]:
+                        pl = op_place(a)
+                        if pl is None:
+                            continue
+                        sl = flow.backward_slice(fam, pl)
+                        if fam is b and 2 in sl["args"] and re.search(r"Path|join|matched|Override|display|to_", callee(t)):
+                            dep.append(strip_crate(callee(t)))
+        looks = [(bb, t) for bb, t in pre.calls() if "callee" in t and LOOK.search(callee(t))]
+        k = strip_crate(ty)
+        if not looks:
+            rep.check("C12.h", f"{k}/no-cache", True, where=pre.loc(), what=f"{k}: pre_process does not answer from a cache", nontrivial=False)
+            continue
+        for n, (bb, t) in enumerate(looks, 1):
+            keyp = op_place(t["args"][1]) if len(t["args"]) > 1 else None
+            sl = flow.backward_slice(pre, keyp) if keyp else {"args": set()}
+            has_path = 2 in sl["args"]
+            ok = has_path or not dep
+            rep.check("C12.h", f"{k}/cache-key/{n}", ok, where=where(pre, bb),
+                      what=(f"{k}: the processed-tree cache is keyed by (path, tree id) and the processing depends on the path (via {sorted(set(dep))[:3]})" if has_path and dep else
+                            f"{k}: the processing does not depend on the path; the cache may be keyed by the tree id alone" if not dep else
+                            f"{k}: processing a tree depends on its path (via {sorted(set(dep))[:3]}) but the processed-tree cache is keyed without the path: the result for one path is reused for the same subtree at another path"))
 
 
 def prog_variants_ignore_match():
